@@ -39,6 +39,10 @@ def variants_for(prop: str) -> list[dict]:
             out.append({"name": os.path.relpath(patch, VERIF), "patch": patch, "kind": "breaking", "why": meta.get("summary", "")})
     for patch in sorted(glob.glob(os.path.join(VERIF, "selftest", "equiv", "*.diff"))):
         out.append({"name": os.path.relpath(patch, VERIF), "patch": patch, "kind": "equivalent", "why": ""})
+    from .mech import TRANSFORMS
+
+    for t in TRANSFORMS:  # whole-repository mechanical refactorings, generated from the current tree
+        out.append({"name": f"mech:{t}", "mech": t, "kind": "equivalent", "why": "mechanical behaviour-preserving rewrite of every module"})
     return out
 
 
@@ -59,12 +63,20 @@ def _run_variant(prop: str, repo_root: str, v: dict) -> dict:
     tmp = tempfile.mkdtemp(prefix="sv-selftest-")
     try:
         _copy_tree(repo_root, tmp)
-        ap = subprocess.run(["git", "apply", "--unsafe-paths", f"--directory={tmp}", v["patch"]], cwd=tmp, capture_output=True, text=True)
-        if ap.returncode != 0:
-            # try from inside the directory (relative paths)
-            ap = subprocess.run(["git", "apply", v["patch"]], cwd=tmp, capture_output=True, text=True)
-        if ap.returncode != 0:
-            return {**v, "status": "skipped", "detail": "patch does not apply to the current tree"}
+        if v.get("mech"):
+            from .mech import rewrite_tree
+
+            try:
+                rewrite_tree(v["mech"], repo_root, tmp)
+            except Exception as e:  # the transform itself could not be applied to this tree: nothing to test
+                return {**v, "status": "skipped", "detail": f"mechanical transform not applicable: {type(e).__name__}: {e}"}
+        else:
+            ap = subprocess.run(["git", "apply", "--unsafe-paths", f"--directory={tmp}", v["patch"]], cwd=tmp, capture_output=True, text=True)
+            if ap.returncode != 0:
+                # try from inside the directory (relative paths)
+                ap = subprocess.run(["git", "apply", v["patch"]], cwd=tmp, capture_output=True, text=True)
+            if ap.returncode != 0:
+                return {**v, "status": "skipped", "detail": "patch does not apply to the current tree"}
         env = dict(os.environ, SV_EVIDENCE_DIR=os.path.join(tmp, "_evidence"))
         r = subprocess.run([sys.executable, "-m", "sv", "check", prop, "--tier", "quick", "--repo", tmp], cwd=VERIF, capture_output=True, text=True, env=env, timeout=600)
         keys = [l.split("] ", 1)[1].strip() if "] " in l else l for l in r.stdout.splitlines() if l.startswith("[C")]
